@@ -97,8 +97,12 @@ def r4_by_ref_exact(ctx, T, rule="C12.R4"):
         if len(fs) != 1:
             raise CheckError("anchor %s" % name)
         return fs[0]
-    pred = one("expr_type_matches_type_qualifier_by_ref")
-    for q1 in ALLQ:
+    # the equality predicate is one part of the by-reference check; it is judged on its own while it
+    # exists as a function, the check as a whole is judged end to end below in any case
+    preds = [f for f in prog.fns.values() if f.name == "expr_type_matches_type_qualifier_by_ref"
+             and "user_defined_function_linter" in f.id]
+    pred = preds[0] if len(preds) == 1 else None
+    for q1 in (ALLQ if pred is not None else ()):
         for q2 in ALLQ:
             et = T.eng.make(ET, "BuiltIn", {0: tf.Tag(ot.TQ, q1)})
             rs = {tf.shape(x) for x in T.eng.summary(pred, (tf.Ref(et), tf.Tag(ot.TQ, q2)))}
@@ -108,7 +112,7 @@ def r4_by_ref_exact(ctx, T, rule="C12.R4"):
                        "a %s variable passed by reference to a %s parameter: predicate yields %s "
                        "(by-reference needs identical types; a mismatch makes the callee write a value "
                        "of the wrong type into the caller's variable)" % (q1, q2, rs))
-    for q2 in ALLQ:
+    for q2 in (ALLQ if pred is not None else ()):
         et = T.eng.make(ET, "FixedLengthString", {})
         rs = {tf.shape(x) for x in T.eng.summary(pred, (tf.Ref(et), tf.Tag(ot.TQ, q2)))}
         want = {"1"} if q2 == "DollarString" else {"0"}
@@ -119,9 +123,9 @@ def r4_by_ref_exact(ctx, T, rule="C12.R4"):
     r_ref = prog.reachable_from([by_ref])
     r_val = prog.reachable_from([by_val])
     uses_cast = lambda reach: any(x.split("::")[-1] == "can_cast_to" for x in reach)
-    ctx.decide(pred.id in r_ref and not uses_cast(r_ref), rule, rule + ":by-ref-arm:uses-equality", by_ref.loc,
-               "by-ref arguments are checked with the equality predicate",
-               "lint_by_ref_arg no longer reaches the equality predicate or reaches can_cast_to")
+    ctx.decide(not uses_cast(r_ref), rule, rule + ":by-ref-arm:uses-equality", by_ref.loc,
+               "by-ref arguments are not checked for mere castability",
+               "lint_by_ref_arg reaches can_cast_to")
     ctx.decide(uses_cast(r_val), rule, rule + ":by-val-arm:uses-castability", by_val.loc,
                "by-value arguments are checked with can_cast_to",
                "lint_by_val_arg no longer uses can_cast_to")
@@ -160,7 +164,31 @@ def r4_by_ref_exact(ctx, T, rule="C12.R4"):
                                             " - accepted, and the callee's value of the parameter type is written "
                                             "back unconverted into the caller's variable" if q1 != q2 else
                                             " - a correct call is refused"))
-    ctx.require(rule, 25 + 5 + 3 + 75)
+    # ... and every other kind of type: an array named without parentheses, a record, an unresolved
+    # expression are never a variable of a built-in type; STRING * n stands for a string only
+    others = [("Unresolved", T.eng.make(ET, "Unresolved", {}), None),
+              ("FixedLengthString", T.eng.make(ET, "FixedLengthString", {}), "DollarString"),
+              ("UserDefined", T.eng.make(ET, "UserDefined", {}), None),
+              ("Array(FixedLengthString)", T.eng.make(ET, "Array", {0: tf.Box(T.eng.make(ET, "FixedLengthString", {}))}), None)]
+    for q1 in ALLQ:
+        others.append(("Array(%s)" % q1,
+                       T.eng.make(ET, "Array", {0: tf.Box(T.eng.make(ET, "BuiltIn", {0: tf.Tag(ot.TQ, q1)}))}), None))
+    for form in ("Variable", "ArrayElement", "Property"):
+        for tname, et, accept_q in others:
+            for q2 in ALLQ:
+                e = T.eng.make(ot.EXPR, form, {slot[form]: et})
+                a = T.eng.make(ot.POS, "Positioned", {0: e})
+                pt = T.eng.make(rpt[0]["id"], "BuiltIn", {0: tf.Tag(ot.TQ, q2)})
+                rs = {tf.shape(x).split("(")[0] for x in T.eng.summary(by_ref, (tf.Ref(a), tf.Ref(pt)))}
+                ok = ("Ok" in rs) if accept_q == q2 else (rs == {"Err"})
+                ctx.decide(ok, rule, "%s:by-ref-check(%s,%s,%s)" % (rule, form, tname, q2), by_ref.loc,
+                           "verdicts %s" % sorted(rs),
+                           "an Expression::%s of type %s passed by reference to a %s parameter: lint_by_ref_arg "
+                           "yields %s%s" % (form, tname, q2, sorted(rs),
+                                            " - accepted: the callee gets something that is not a variable of the "
+                                            "parameter's type (Type mismatch at run time in an accepted program)"
+                                            if accept_q != q2 else " - a correct call is refused"))
+    ctx.require(rule, 3 + 75 + 135)
 
 
 def r5_condition_typing(ctx, T, rule="C12.R5"):
@@ -578,3 +606,5 @@ def run(ctx):
     r11_no_conversion_between_arrays(ctx, T)
     r12_argument_count_is_compared_for_equality(ctx)
     r13_select_case_compares_built_in_values(ctx, T)
+    from . import c01
+    c01.r3_determinism(ctx, "C12.R14")
